@@ -674,6 +674,7 @@ def cmdExpand (st : State) : State × List String := Id.run do
   let mut passes : List PassIRj := []
   let mut nOpt := 0
   let mut nAlt := 0
+  let mut nWf := 0
   for pj in st.ir.passes do
     let mut rules : List RuleIR := []
     let mut ri := 0
@@ -696,7 +697,13 @@ def cmdExpand (st : State) : State × List String := Id.run do
         match (Opt.modelAlternatives r.opt r.items.length).map (·.filter (Opt.isRuleVersion mods)) with
         | none => out := out ++ [s!"MODELDIFF pass {pj.index} rule {ri}: model reports overlapping ranges for a laminar tree"]
         | some m =>
-          if m.eraseDups != spec.eraseDups then out := out ++ [s!"MODELDIFF pass {pj.index} rule {ri}: model {m} spec {spec}"]
+          -- For well-formed trees (wfB: the hypothesis of Opt.model_eq_spec_any_order) model and specification are the
+          -- same list, multiplicities included - a theorem; the comparison is repeated here on the concrete rule so
+          -- that a change of the model's definitions that the proofs do not cover cannot go unnoticed.
+          let wf := Opt.wfB tree 0
+          if wf then nWf := nWf + 1
+          if wf ∧ m != spec then out := out ++ [s!"MODELDIFF pass {pj.index} rule {ri}: well-formed tree, model {m} spec {spec}"]
+          else if m.eraseDups != spec.eraseDups then out := out ++ [s!"MODELDIFF pass {pj.index} rule {ri}: model {m} spec {spec}"]
           else use := m
         for kept in use do
           match alternativeOf r kept with
@@ -705,7 +712,7 @@ def cmdExpand (st : State) : State × List String := Id.run do
       ri := ri + 1
     passes := passes ++ [{ pj with rules := rules }]
   let st' := { st with ir := { st.ir with passes := passes } }
-  (st', out ++ [s!"ok expanded optionalRules={nOpt} alternatives={nAlt}", "done"])
+  (st', out ++ [s!"ok expanded optionalRules={nOpt} alternatives={nAlt} wellFormedTrees={nWf}", "done"])
 
 def parsePLines (text : String) : List (LM.PLine × String) :=
   (text.splitOn "\n").map fun line =>
